@@ -23,6 +23,7 @@ inductive IOp where
   | write (i v : Nat)          -- `it.as_mut_slice()[i] = v`
   | clone                      -- replace the iterator by its clone, report the clone's items
   | fold | rfold | count | last   -- consuming adaptors, run on a clone of the iterator
+  | foldSelf | rfoldSelf | countSelf | lastSelf   -- the same, consuming the iterator itself
   | debug
 deriving Repr, DecidableEq
 
@@ -131,6 +132,16 @@ def step (it : Iter) : IOp → IOut × Iter
       let c := clone it
       (if sliceOk it && Iter.lastIsNextBack then (nextBack c).1 else .ub, it)
   | .debug => (if sliceOk it then .items (asSlice it) else .ub, it)
+  | .foldSelf =>
+      (if rangeOk it.slots (Iter.foldLo it.front it.back) (Iter.foldHi it.front it.back)
+        then .items (foldItems it) else .ub, { it with front := it.back })
+  | .rfoldSelf =>
+      (if rangeOk it.slots (Iter.rfoldLo it.front it.back) (Iter.rfoldHi it.front it.back)
+        then .items (rfoldItems it) else .ub, { it with front := it.back })
+  | .countSelf =>
+      (if Iter.countIsLen && Iter.lenOk it.front it.back then .num (Iter.len it.front it.back) else .ub,
+        { it with front := it.back })
+  | .lastSelf => (if Iter.lastIsNextBack then (nextBack it).1 else .ub, { it with front := it.back })
 
 def run (it : Iter) : List IOp → List IOut × Iter
   | [] => ([], it)
@@ -157,6 +168,10 @@ def step (q : List Nat) : IOp → IOut × List Nat
   | .count => (.num q.length, q)
   | .last => (.item q.getLast?, q)
   | .debug => (.items q, q)
+  | .foldSelf => (.items q, [])
+  | .rfoldSelf => (.items q.reverse, [])
+  | .countSelf => (.num q.length, [])
+  | .lastSelf => (.item q.getLast?, [])
 
 def run (q : List Nat) : List IOp → List IOut × List Nat
   | [] => ([], q)
